@@ -503,7 +503,7 @@ def main():
     run.bounds = {'models': sorted(MODELS) + sorted(ISO), 'series_orders_(m1,m2,n2)': sorted({c['mn'] for c in cf}), 'sections_s': sorted({c['s'] for c in cf}), 'configurations': len(cf)}
     run.assume('pi is a symbol; sin/cos of pi*k/2 exact, of the semi-vertex angle a pair of atoms with S^2+C^2=1', 'r2, L non-zero', 'laminate matrix symmetric (A,B,D / shear blocks)')
     run.stubs += ['fk0 / fk0_cyl return a zero matrix in the edge-restraint configurations (v) only', 'laminate.read_stack returns a symbolic ABD/ABDE']
-    run.outside = ['shell part of k0 = Hessian of the strain energy of the package own strain field (no exact meridional integrator built)', 'positive semi-definiteness', 'sections s > 2',
+    run.outside = ['positive semi-definiteness as a query (it follows from the energy form where variant (vi) holds)', 'sections s > 2',
                    'edge restraints for n2 > 1 (4-node circumferential rule)',
                    'bcn clpt/fsdt Donnell modules (not importable in this build) and the geier1997 / shadmehri2012 models']
     res = pmap(kprop.job, [(__name__, c) for c in cf])
